@@ -30,6 +30,11 @@ pub fn scenarios(thorough: bool) -> Vec<Scenario> {
         Scenario { name: "incremental-large-update", before: base.clone(), mutate: vec![format!("set ka {}", big), "set kc CCCC".into()], snap: "snapshot false one".into(), reclaim: false },
         // ... and nothing but such values: here a key must never point at bytes that are not in the values file yet
         Scenario { name: "incremental-only-large-updates", before: base.clone(), mutate: vec![format!("set ka {}", big), format!("set kc {}", "C".repeat(700))], snap: "snapshot false one".into(), reclaim: false },
+        // the key that owns the last record of the values file (written alone by the snapshot before) gets a shorter value /
+        // is removed: whatever the snapshot does to the tail of that file, the old record is still referenced until the key
+        // record has been redirected
+        Scenario { name: "incremental-shorter-update-of-last-record", before: { let mut b = base.clone(); b.push(format!("set kz {}", "z".repeat(48))); b.push("snapshot false one".into()); b }, mutate: s(&["set kz zz", "set ka AAAA"]), snap: "snapshot false one".into(), reclaim: false },
+        Scenario { name: "incremental-remove-of-last-record", before: { let mut b = base.clone(); b.push(format!("set kz {}", "z".repeat(48))); b.push("snapshot false one".into()); b }, mutate: s(&["remove kz", "set ka AAAA"]), snap: "snapshot false one".into(), reclaim: false },
     ];
     if thorough {
         v.push(Scenario { name: "incremental-large-new", before: base.clone(), mutate: vec![format!("set nh {}", big), "set ni 4".into(), "set ka AAAA".into()], snap: "snapshot false one".into(), reclaim: false });
